@@ -99,7 +99,7 @@ class Build:
             lock.close()
         return self
 
-    GENERATED = ["Generated", "GeneratedChars", "GeneratedTermn", "GeneratedWhen", "GeneratedConst", "GeneratedBehavior", "GeneratedJoin", "GeneratedOps", "GeneratedRule", "GeneratedEncode"]
+    GENERATED = ["Generated", "GeneratedChars", "GeneratedTermn", "GeneratedWhen", "GeneratedConst", "GeneratedBehavior", "GeneratedJoin", "GeneratedOps", "GeneratedRule", "GeneratedEncode", "GeneratedKinds"]
 
     def _extract(self):
         """regenerate the tables and the translated functions from /repo/src (tools/extract.py writes Wax/Generated*.lean)"""
